@@ -1069,6 +1069,9 @@ impl Server {
                 // CopyInResponse: copy is starting from client to server.
                 'G' => {
                     self.in_copy_mode = true;
+                    // The server now waits for the client's copy data: nothing more is
+                    // coming until then, even if rows of an earlier statement were seen.
+                    self.data_available = false;
                     break;
                 }
 
